@@ -390,4 +390,17 @@ theorem closing_state_cancels_heartbeat :
     c'.closed = true ∧ c'.closeCode = some 4000 ∧ c'.frames = [.close 1000] ∧ c'.exc = none := by
   decide +kernel
 
+/-- **Crossing closes (kernel-checked run, both sides)**: task 0 is parked in receive(), task 1 calls close(), the peer's
+CLOSE(4001) arrives before either is resumed.  receive() hands the CLOSE to the application and marks the session
+closing even though `closed` is already set, so close() does not wait for the timeout: it returns `True` at once, the
+reported code is the peer's, one CLOSE frame was sent, no exception recorded, transport closing. -/
+theorem crossing_closes_report_peer_code :
+    let ls : List Label := [.call 0 .recv, .tick, .call 1 (.close 1000), .peer (.close 4001), .tick, .tick, .tick, .tick]
+    let s := run (init srvCfg) ls
+    let c := run (init cliCfg) ls
+    s.now = 0 ∧ s.closeCode = some 4001 ∧ s.frames = [.close 1000] ∧ s.exc = none ∧ s.trClosing = true ∧
+      (getT s 1).outcome = some (.closeRet true) ∧ (getT s 0).outcome = some (.recv (.msg (.close 4001))) ∧
+    c.now = 0 ∧ c.closeCode = some 4001 ∧ c.frames = [.close 1000] ∧ c.exc = none ∧ c.trClosing = true := by
+  decide +kernel
+
 end Aio.C13
